@@ -100,6 +100,14 @@ class Ref:
         self.calls = []
         self.matched_terminals = 0
 
+    def allnames(self):
+        if not hasattr(self, '_allnames'):
+            self._allnames = set()
+            for x in self.rules.values():
+                a, b = names_in(x)
+                self._allnames |= set(a) | set(b)
+        return self._allnames
+
     # ------------------------------------------------------------ lexical
     def skip(self, p):
         t = self.text
@@ -225,8 +233,8 @@ class Ref:
                 v = pyast.literal_eval(txt.strip())
             except Exception:
                 v = txt
-                if '{' in txt or '(' in txt or '[' in txt:
-                    self.flags.add('U5')  # interpolation / expression: not modelled here
+                if '{' in txt or '(' in txt or '[' in txt or txt.strip() in self.allnames():
+                    self.flags.add('U5')  # interpolation / expression over AST names: not modelled here (see C17)
             if isinstance(v, (list, tuple, dict, set)):
                 self.flags.add('U5')
             if v is None:
